@@ -118,7 +118,7 @@ def run(ctx):
             else:
                 if apps:
                     ctx.bad("C12.4", f"{tag}: open ring gets a closing vertex", where, f"{apps}")
-    ctx.floor("(resolution, options) configurations evaluated", n_cfg, 100)
+    ctx.floor("(resolution, options) configurations evaluated", n_cfg, 100, soft=True)
 
     # ---- C12.2: split_edges keeps every original vertex, first in its group ------------------------------------------
     se = model.funcs.get("a5.geometry.pentagon.PentagonShape.split_edges")
